@@ -21,7 +21,7 @@ from .. import core, tplgen
 from .. import render_common as rc
 
 PROP = "C03"
-THEOREMS = ["insert_pop_restores", "insert_minus_one_restores", "isolated_copy_hides", "not_isolated_hides_everything",
+THEOREMS = ["fill_content_scope_in_trees", "insert_pop_restores", "insert_minus_one_restores", "isolated_copy_hides", "not_isolated_hides_everything",
             "captured_between_outer_and_inner", "captured_above_inner_data_when_nested", "plain_output_independent_of_world", "usable_name_facts", "leaf_component_isolated_sees_only_its_data", "leaf_component_isolated_noninterference", "leaf_component_with_slots_isolated", "fill_is_lexically_scoped_isolated"]
 
 PROFILE = dict(parentloop_in_fill=True, collide=0.8, p_only=0.25, w_with=3, w_for=2, w_slot=4, w_comp=5, p_data_alias=0.5, p_default_alias=0.2,
